@@ -166,7 +166,9 @@ def pick_table(run):
     root = fresh_root('c09pick')
     for how, value in [('opt_default', 'policy.yaml'), ('set_default', 'policy.yaml'), ('set_default', 'other.yaml'),
                        ('config_file', 'policy.yaml'), ('config_file', 'other.yaml'),
-                       ('override', 'policy.yaml'), ('override', 'other.yaml')]:
+                       ('override', 'policy.yaml'), ('override', 'other.yaml'),
+                       # a name that merely ends in / contains the library default is another name
+                       ('set_default', 'nova-policy.yaml'), ('set_default', 'policy.yaml.sample')]:
         for have_yaml, have_json, have_other in itertools.product([False, True], repeat=3):
             for fallback in (True, False):
                 for explicit in (None, 'explicit.yaml'):
@@ -197,7 +199,7 @@ def pick_table(run):
                            'config_file': 'user', 'override': 'set_override'}[how]
                     want = pick_spec(value, loc, fallback, have_yaml, have_json, have_other, explicit)
                     if not explicit:
-                        found_opt = have_yaml if value == 'policy.yaml' else have_other
+                        found_opt = have_yaml if value == 'policy.yaml' else (have_other if value == 'other.yaml' else False)
                         lcode = {'opt_default': 0, 'set_default': 1, 'user': 2, 'set_override': 3}[loc]
                         model_rows.append(([12, value == 'policy.yaml', True, fallback, found_opt, lcode, have_json],
                                            got, value))
